@@ -176,8 +176,36 @@ def check_text_case(case):
     if validator_errors(text, ver):
         return None
     fails = []
+    if case.get("pre") == "equivalence":
+        # history: the very same text went through the equivalence functions earlier in this process (they parse it and normalise
+        # the tree they get IN PLACE).  What they answer is C09's business; a later parse of the text must be unaffected.
+        from stix2.equivalence.pattern import equivalent_patterns, find_equivalent_patterns
+        core.guarded_timed(20, equivalent_patterns, text, text, stix_version=ver)
+        core.guarded_timed(20, lambda: list(find_equivalent_patterns(text, [text], stix_version=ver)))
+    elif case.get("pre") == "edit-earlier-model":
+        # the caller edits the object model an EARLIER parse of the same text returned (sorting / dropping operands)
+        from stix2.pattern_visitor import create_pattern_object
+        earlier, exc = core.guarded(create_pattern_object, text, version=ver)
+        if exc is None:
+            _scramble(earlier)
     check_text(text, ast, ver, fails)
     return fails
+
+
+def _scramble(node, depth=0):
+    """In-place edits of a model the caller owns: reverse operand lists, drop all but the first operand."""
+    if depth > 50:
+        return
+    ops = getattr(node, "operands", None)
+    if isinstance(ops, list) and ops:
+        for o in ops:
+            _scramble(o, depth + 1)
+        ops.reverse()
+        del ops[1:]
+    for attr in ("operand", "expression", "observation_expression"):
+        sub = getattr(node, attr, None)
+        if sub is not None and not isinstance(sub, (str, int, float)):
+            _scramble(sub, depth + 1)
 
 
 # ---- model family ----------------------------------------------------------------
@@ -435,13 +463,15 @@ def _classes(case, ast):
     cl.append("ver:" + case.get("ver", "2.1"))
     if case.get("sty"):
         cl.append("layout:randomised")
+    if case.get("pre"):
+        cl.append("history:" + case["pre"])
     cl.append("depth:%d" % min(P.depth(ast), 6))
     return f, cl
 
 
 REQUIRED_CLASSES = ["NOT", "step:quoted", "step:index", "step:star", "step:ref", "qual:repeats", "qual:within", "qual:startstop", "qual:stacked",
                     "obs:AND", "obs:OR", "obs:FOLLOWEDBY", "bool:and", "bool:or", "exists", "str:needs-escape", "family:model", "ver:2.0",
-                    "layout:randomised"] + ["op:" + o for o in P.OPS] + ["const:" + c for c in ("int", "float", "str", "bool", "ts", "hex", "bin", "set")]
+                    "layout:randomised", "history:equivalence", "history:edit-earlier-model"] + ["op:" + o for o in P.OPS] + ["const:" + c for c in ("int", "float", "str", "bool", "ts", "hex", "bin", "set")]
 
 
 def run(ctx):
